@@ -1659,13 +1659,13 @@ def replay(ctx, data):
         print("implementation: %s %r" % (status, out))
         for e in events:
             print("   lookup", e)
-        try:
+        agree = None
+        if "repro" not in case:
             ms, mo, me = parse_model(ctx.driver().ask(w_render(c)))
             print("model         : %s %r" % (ms, mo if ms == "ok" else ""))
+            for e in me:
+                print("   lookup", e)
             agree = (ms, mo if ms == "ok" else "", me) == (status, out, events) or "<<repr>>" in mo
-        except Exception as e:      # the driver is not needed to decide an oracle case
-            print("model not asked:", e)
-            agree = None
         if "repro" in case:
             for k in ("want", "want_re", "want_status"):
                 if k in case:
